@@ -220,6 +220,9 @@ def centroid_mean(chk, prog, R):
     sums = [c for c in ex.contribs if c.mode == '+=' and len(c.out[1]) == 2]
     cnts = [c for c in ex.contribs if c.mode == '+=' and len(c.out[1]) == 1]
     divs = [c for c in ex.contribs if c.mode == '/=']
+    if not sums or not cnts or not divs:
+        chk.broke('getCentroids: the scatter-sum / count / division stores were not all found (%d / %d / %d): update not recognised' % (len(sums), len(cnts), len(divs)))
+        return
     if len(sums) != 1 or len(cnts) != 1 or len(divs) != 1:
         bad('shape', None, 'expected one scatter-sum, one count and one division; found %d / %d / %d stores' % (len(sums), len(cnts), len(divs)))
         return
